@@ -445,11 +445,9 @@ NewViewConsistent == (Done /\ ~IsShort(m)) =>
 CStarts == IF Len(m) <= 12 THEN <<>>
            ELSE IF sel[1] = "Ldone" THEN sel[2]
            ELSE [i \in 1..Min(Len(m) - 12, 10) |-> 11 + i]
+\* every start is also the start of a byte string of its own (the rest of the
+\* message) for the routes that read without a message around them
+CProbes == [i \in 1..Len(CStarts) |-> <<CStarts[i], Len(m)>>]
 EmitCodec == (Done /\ Len(m) >= 12) =>
-  LET v == CodecView(FALSE, m, CStarts)
-      vn == CodecView(TRUE, m, CStarts)
-  IN PrintT("CASE " \o ToJson(
-       [in |-> [m |-> m, starts |-> CStarts],
-        exp |-> [old |-> v, new |-> v, agree |-> TRUE],
-        dev |-> IF vn # v THEN [D_new_ptr_rule |-> [new |-> vn, agree |-> FALSE]] ELSE [none |-> 0]]))
+  PrintT("CASE " \o ToJson(CodecCase(m, CStarts, CProbes)))
 =============================================================================
